@@ -194,6 +194,22 @@ Fixpoint write_list_k (len : Z) (l : list Z) (xs : list val) (cells : list val) 
   | _, _ => (cells, true)
   end.
 
+(* ---------- BaseColumn._tosequence on the generated bounds: a scalar is broadcast; of a sequence
+   k_toseq_take(length) cells are read and coerced, and the generated length test decides ---------- *)
+Definition rhs_cells_k (k : kind) (n : nat) (r : rhs) : res (list val) :=
+  match r with
+  | RScalar v => bind (nf k v) (fun x => Ok (repeat x n))
+  | RSeq vs => bind (coerce_all k (firstn (Z.to_nat (k_toseq_take (Z.of_nat n))) vs))
+                    (fun xs => if k_toseq_badlen (Z.of_nat (List.length xs)) (Z.of_nat n)
+                               then Raise ValueError else Ok xs)
+  end.
+
+Definition with_cells (t : ltable) (ci : nat) (c : lcol) (cells : list val) : ltable :=
+  {| l_fam := l_fam t; l_rowid := l_rowid t; l_names := l_names t;
+     l_cols := set_nth ci {| lc_kind := lc_kind c; lc_rowid := lc_rowid c; lc_cells := cells;
+                             lc_owner := lc_owner c; lc_tc := lc_tc c |} (l_cols t);
+     l_sorted := l_sorted t; l_dflt := l_dflt t |}.
+
 (* ---------- DataMatrix._set_col with a column object as the value ----------
    inserted by reference (the deliberate alias) when the generated guard says so, refused when the generated
    length test says so, otherwise copied into a new column of the value's type (value._empty_col + col[:] = value) *)
@@ -297,7 +313,7 @@ Definition lstep (p : list ltable) (o : op) : lres :=
                   else match sel_positions c k with
                        | None => LErr
                        | Some ps =>
-                           match rhs_cells (lc_kind c) (List.length ps) r with
+                           match rhs_cells_k (lc_kind c) (List.length ps) r with
                            | Raise _ => LErr
                            | Ok xs =>
                                LUpd ti {| l_fam := l_fam t; l_rowid := l_rowid t; l_names := l_names t;
@@ -335,7 +351,7 @@ Definition lstep (p : list ltable) (o : op) : lres :=
               match nth_error (l_cols t) ci with
               | None => LSkip
               | Some c =>
-                  match rhs_cells (lc_kind c) (List.length l) r with
+                  match rhs_cells_k (lc_kind c) (List.length l) r with
                   | Raise _ => LErr
                   | Ok xs =>
                       let '(cells, ok) := write_list_k (Z.of_nat (List.length (lc_cells c))) l xs (lc_cells c) in
@@ -344,6 +360,65 @@ Definition lstep (p : list ltable) (o : op) : lres :=
                                                            lc_owner := lc_owner c; lc_tc := lc_tc c |} (l_cols t);
                                    l_sorted := l_sorted t; l_dflt := l_dflt t |} in
                       if ok then LUpd ti t' else LErrUpd ti t'
+                  end
+              end
+          end
+      end
+  | OSetCell ti name (ASlice a b) r =>
+      (* col[a:b] = value: the addressed positions are Python's slice, the value goes through _tosequence *)
+      match nth_error p ti with
+      | None => LSkip
+      | Some t =>
+          match lookup name (l_names t) with
+          | None => LErr
+          | Some ci =>
+              match nth_error (l_cols t) ci with
+              | None => LSkip
+              | Some c =>
+                  let ps := slice_pos (nrows_l t) a b in
+                  match rhs_cells_k (lc_kind c) (List.length ps) r with
+                  | Raise _ => LErr
+                  | Ok xs => LUpd ti (with_cells t ci c (write_at ps xs (lc_cells c)))
+                  end
+              end
+          end
+      end
+  | OSetCell ti name (AInt i) (RScalar v) =>
+      (* col[i] = value: _setintkey coerces first, then Python's list / array indexing *)
+      match nth_error p ti with
+      | None => LSkip
+      | Some t =>
+          match lookup name (l_names t) with
+          | None => LErr
+          | Some ci =>
+              match nth_error (l_cols t) ci with
+              | None => LSkip
+              | Some c =>
+                  match nf (lc_kind c) v with
+                  | Raise _ => LErr
+                  | Ok x => match norm_index (nrows_l t) i with
+                            | None => LErr
+                            | Some q => LUpd ti (with_cells t ci c (write_at [q] [x] (lc_cells c)))
+                            end
+                  end
+              end
+          end
+      end
+  | OSetCol ti name r =>
+      (* dm[name] = value on an EXISTING column: _set_col ends in col[:] = value, i.e. _tosequence for the whole length
+         (a missing column is created first: left to the L0 check) *)
+      match nth_error p ti with
+      | None => LSkip
+      | Some t =>
+          match lookup name (l_names t) with
+          | None => LSkip
+          | Some ci =>
+              match nth_error (l_cols t) ci with
+              | None => LSkip
+              | Some c =>
+                  match rhs_cells_k (lc_kind c) (nrows_l t) r with
+                  | Raise _ => LErrUpd ti t
+                  | Ok xs => LUpd ti (with_cells t ci c xs)
                   end
               end
           end
